@@ -3,9 +3,9 @@
 TIER="$1"; shift
 for id in "$@"; do
   for X in A B; do
-    P=/tmp/seeded_out/$id/patch_$X.diff; Dm=/tmp/seeded_out/$id/demo_$X.py
+    P=${SEEDBASE:-/tmp/seeded_out}/$id/patch_$X.diff; Dm=${SEEDBASE:-/tmp/seeded_out}/$id/demo_$X.py
     [ -f "$P" ] || continue
-    /verif/tools/seedtest.sh "$P" "$Dm" "$TIER" $id > /tmp/seeded_out/$id/result_${X}_$TIER.txt 2>&1
-    echo "== $id $X"; cat /tmp/seeded_out/$id/result_${X}_$TIER.txt
+    /verif/tools/seedtest.sh "$P" "$Dm" "$TIER" $id > ${SEEDBASE:-/tmp/seeded_out}/$id/result_${X}_$TIER.txt 2>&1
+    echo "== $id $X"; cat ${SEEDBASE:-/tmp/seeded_out}/$id/result_${X}_$TIER.txt
   done
 done
